@@ -50,9 +50,95 @@ type c19Draw struct {
 	ticket int64
 }
 
+type c19Pair struct{ h, l uint64 }
+
+// c19LongRun draws n IDs as fast as the library allows (no race instrumentation): three
+// quarters from one goroutine in a tight loop, the rest from four goroutines. Every ID is
+// checked for its fixed bits; duplicates are detected exactly among the first 8M draws and among
+// a 1/16 sample (top four bits of Higher zero) of the whole run, so a generator state that is
+// reset or repeats a block after tens of millions of draws is seen without storing every ID.
+func c19LongRun(n int) {
+	res := c19Result{G: 1, Procs: runtime.GOMAXPROCS(0), Draws: n, RaceEnabled: raceEnabled}
+	const exactN = 8 << 20
+	exact := make([]c19Pair, 0, exactN)
+	sample := make([]c19Pair, 0, n/16+n/64+1024)
+	var bad int64
+	single := n / 4 * 3
+	for k := 0; k < single; k++ {
+		id := uu.RandomID()
+		if id.Higher>>12&0xf != 4 || id.Lower>>62 != 2 {
+			bad++
+		}
+		if k < exactN {
+			exact = append(exact, c19Pair{id.Higher, id.Lower})
+		}
+		if id.Higher>>60 == 0 {
+			sample = append(sample, c19Pair{id.Higher, id.Lower})
+		}
+	}
+	var wg sync.WaitGroup
+	var mu sync.Mutex
+	for g := 0; g < 4; g++ {
+		wg.Add(1)
+		go func() {
+			defer wg.Done()
+			local := make([]c19Pair, 0, (n-single)/64+1024)
+			var lb int64
+			for k := 0; k < (n-single)/4; k++ {
+				id := uu.RandomID()
+				if id.Higher>>12&0xf != 4 || id.Lower>>62 != 2 {
+					lb++
+				}
+				if id.Higher>>60 == 0 {
+					local = append(local, c19Pair{id.Higher, id.Lower})
+				}
+			}
+			mu.Lock()
+			sample = append(sample, local...)
+			bad += lb
+			mu.Unlock()
+		}()
+	}
+	wg.Wait()
+	count := func(ps []c19Pair) (int64, string) {
+		sort.Slice(ps, func(i, j int) bool {
+			if ps[i].h != ps[j].h {
+				return ps[i].h < ps[j].h
+			}
+			return ps[i].l < ps[j].l
+		})
+		var d int64
+		f := ""
+		for i := 1; i < len(ps); i++ {
+			if ps[i] == ps[i-1] {
+				d++
+				if f == "" {
+					f = uu.ID{Higher: ps[i].h, Lower: ps[i].l}.String()
+				}
+			}
+		}
+		return d, f
+	}
+	var d1, d2 int64
+	var f1, f2 string
+	wg.Add(2)
+	go func() { defer wg.Done(); d1, f1 = count(exact) }()
+	go func() { defer wg.Done(); d2, f2 = count(sample) }()
+	wg.Wait()
+	res.Draws = single + (n-single)/4*4
+	res.Duplicates, res.FirstDuplicate, res.BadBits = d1+d2, f1+f2, bad
+	res.Distinct = int64(len(exact)+len(sample)) - d1 - d2
+	json.NewEncoder(os.Stdout).Encode(res)
+}
+
 func c19Child(spec string) {
 	var g, procs, draws int
 	var seed int64
+	if strings.HasPrefix(spec, "long/") {
+		fmt.Sscanf(spec, "long/%d", &draws)
+		c19LongRun(draws)
+		return
+	}
 	control := strings.HasPrefix(spec, "control")
 	if !control {
 		fmt.Sscanf(spec, "%d/%d/%d/%d", &g, &procs, &draws, &seed)
@@ -213,7 +299,7 @@ func runC19(c *rt.Ctx) {
 	c.SetRule("RandomID drawn from G in {1,2,8,64} goroutines x GOMAXPROCS in {1,2,4,16} x R repetitions, each configuration in its own -race child process with a start barrier and seeded Gosched() calls between draws; every ID checked for version 4 / variant 1 (accessors and raw bits), per-bit frequencies over all draws, exact duplicate detection per run, race reports counted and attributed by stack; a positive-control child with a deliberately racy counter proves the detector is armed. " +
 		"distinct_nontrivial counts distinct IDs observed (exact set per run, summed); the interleavings actually observed are reported as hand-offs, maximum run length and the minimum number of distinct goroutines per 64-ticket window")
 	c.Assume("the race detector reports races on executed accesses without a happens-before edge; it does not enumerate schedules. RandomID is time-seeded inside the library, so violations are witnessed by race reports / offending IDs, not replayed")
-	if !raceEnabled {
+	if !raceEnabled && os.Getenv("VERIF_C19_CHILD") == "" {
 		c.Inconclusive("monitor binary was built without -race")
 		return
 	}
@@ -258,6 +344,40 @@ func runC19(c *rt.Ctx) {
 		sc := rt.ReplayCtx("C19")
 		sc.Serial("selftest", func(w *rt.W) { w.Fail("k", "draws", nil, "version 5", "version 4", "synthetic") })
 		c.SelfTest("monitor-records-a-mismatch", sc.Violations() == 1)
+	}
+
+	// long uninstrumented run: state that is reset or wraps after tens of millions of draws
+	if fast := os.Getenv("VERIF_MON_FAST"); fast != "" {
+		n := c.Pick(96000000, 480000000)
+		cmd := exec.Command(fast, "C19")
+		cmd.Env = append(os.Environ(), fmt.Sprintf("VERIF_C19_CHILD=long/%d", n), "GOTRACEBACK=single")
+		var out, errb strings.Builder
+		cmd.Stdout, cmd.Stderr = &out, &errb
+		err := cmd.Run()
+		var res c19Result
+		c.Serial("long-run", func(w *rt.W) {
+			if jerr := json.Unmarshal([]byte(out.String()), &res); err != nil || jerr != nil {
+				tail := errb.String()
+				if len(tail) > 2000 {
+					tail = tail[:2000]
+				}
+				w.Fail("child-died", "draws", rt.Args("mode", "long uninstrumented run", "draws", n, "stderr", tail), fmt.Sprint(err, jerr), "normal exit", "the long-run process died\n"+tail)
+				return
+			}
+			w.Eval(int64(res.Draws))
+			args := rt.Args("mode", "long uninstrumented run, one goroutine then four; duplicates exact over the first 8M draws and over a 1/16 sample of all", "draws", res.Draws)
+			if res.Duplicates > 0 {
+				w.Fail("duplicate-id-long-run", "draws", args, fmt.Sprintf("%d duplicates among %d IDs, e.g. %s", res.Duplicates, res.Draws, res.FirstDuplicate), "no duplicate within a run", "the same ID was returned twice in one long run")
+			}
+			if res.BadBits > 0 {
+				w.Fail("not-version4-variant1", "draws", args, fmt.Sprintf("%d IDs with wrong version/variant bits", res.BadBits), "version 4, variant 1 on every ID", "generated ID is not a version 4 / RFC 4122 variant UUID")
+			}
+			w.ClassN("long-run-draws", int64(res.Draws))
+			w.Sample("long-run", map[string]any{"draws": res.Draws, "ids_kept_for_duplicate_detection": res.Distinct, "duplicates": res.Duplicates})
+		})
+		c.Require("long-run-draws", int64(n)*9/10)
+	} else {
+		c.Inconclusive("VERIF_MON_FAST is not set: the long uninstrumented run was not executed")
 	}
 
 	reps := c.Pick(2, 10)
